@@ -73,6 +73,7 @@ pub fn emit(v: &Value) {
 thread_local! {
     static LAST_PANIC: RefCell<Option<String>> = const { RefCell::new(None) };
     static QUIET: RefCell<u32> = const { RefCell::new(0) };
+    static IGNORE_PRSS: RefCell<u32> = const { RefCell::new(0) };
 }
 
 static HOOK: Once = Once::new();
@@ -95,7 +96,8 @@ pub fn install_hook() {
                 .location()
                 .map(|l| format!("{}:{}", l.file(), l.line()))
                 .unwrap_or_default();
-            if msg.contains("Generated randomness for index") {
+            let ignore = IGNORE_PRSS.try_with(|q| *q.borrow() > 0).unwrap_or(false);
+            if msg.contains("Generated randomness for index") && !ignore {
                 PRSS_REUSE
                     .lock()
                     .unwrap_or_else(|e| e.into_inner())
@@ -109,6 +111,15 @@ pub fn install_hook() {
             }
         }));
     });
+}
+
+/// Runs `f` with the duplicate-(step, index) monitor's panics not counted as findings (used by
+/// the check that provokes the monitor on purpose).
+pub fn provoking_prss_monitor<T>(f: impl FnOnce() -> T) -> Result<T, String> {
+    IGNORE_PRSS.with(|q| *q.borrow_mut() += 1);
+    let r = catch(f);
+    IGNORE_PRSS.with(|q| *q.borrow_mut() -= 1);
+    r
 }
 
 pub fn prss_reuse_panics() -> Vec<String> {
